@@ -214,6 +214,18 @@ impl QueuingExecutor {
     }
 }
 
+#[cfg(crux_verif)]
+impl QueuingExecutor {
+    /// Verification hook (read-only): the number of tasks the executor currently holds
+    /// (occupied slots of the task slab, whether the future is in its slot or being polled).
+    pub(crate) fn verif_live_tasks(&self) -> usize {
+        self.tasks
+            .lock()
+            .unwrap_or_else(std::sync::PoisonError::into_inner)
+            .len()
+    }
+}
+
 enum RunTask {
     Missing,
     Unavailable,
